@@ -296,6 +296,15 @@ func olvmInputs(w *warm) []c18input {
 	}
 	// hostile fields around a plain transfer
 	to := ethcmn.BytesToAddress(w.w.EthUsers[1].Addr)
+	// the price currency is the one fee field the EVM-style signature does not cover: a valid transfer with
+	// the currency replaced keeps its valid signature
+	for _, cur := range []string{"", "VT", "ETH", "XYZ", "olt"} {
+		st := &action.SignedTx{}
+		if json.Unmarshal(gen.OLVMTx(c, e, key, nonce, &to, big.NewInt(1), nil, 21000, "1000000000", chain, fmt.Sprint(nonce)), st) == nil {
+			st.Fee.Price.Currency = cur
+			out = append(out, c18input{"OLVM.Fee", fmt.Sprintf("price-currency=%q", cur), st.SignedBytes()})
+		}
+	}
 	out = append(out, c18input{"OLVM.Nonce", "nonce-ahead", gen.OLVMTx(c, e, key, nonce+5, &to, big.NewInt(1), nil, 21000, "1000000000", chain, fmt.Sprint(nonce+5))})
 	out = append(out, c18input{"OLVM.Nonce", "nonce-max", gen.OLVMTx(c, e, key, ^uint64(0), &to, big.NewInt(1), nil, 21000, "1000000000", chain, fmt.Sprint(^uint64(0)))})
 	out = append(out, c18input{"OLVM.ChainID", "wrong-chain", gen.OLVMTx(c, e, key, nonce, &to, big.NewInt(1), nil, 21000, "1000000000", big.NewInt(1), fmt.Sprint(nonce))})
